@@ -31,6 +31,8 @@ type Scenario struct {
 	After   []string `json:"after"`   // actions after the release
 	Point2  string   `json:"point2"`  // second park, armed just before the first one is released
 	During2 []string `json:"during2"` // actions while parked the second time
+	Early   bool     `json:"early"`   // the park is armed before the meta is spawned (any meta): the Start goroutine itself is caught on its way
+	Hold    int      `json:"hold"`    // the handler of the Hold-th message is kept inside HandleMessage until the first park has been released
 }
 
 type File struct {
@@ -133,6 +135,7 @@ func (p *parent) HandleMessage(from gen.PID, message any) error {
 
 type gate struct {
 	mu      sync.Mutex
+	any     bool // any subject (armed before the alias is known)
 	subject gen.Alias
 	point   string
 	count   int
@@ -149,7 +152,7 @@ func hook(point string, subject any) {
 		return
 	}
 	theGate.mu.Lock()
-	if !theGate.armed || theGate.point != point || theGate.subject != a {
+	if !theGate.armed || theGate.point != point || (!theGate.any && theGate.subject != a) {
 		theGate.mu.Unlock()
 		return
 	}
@@ -210,6 +213,25 @@ func (r *Runner) Run(s *Scenario) error {
 	defer r.node.Kill(par)
 	var alias gen.Alias
 	var serr error
+	var release chan struct{}
+	var parked chan struct{}
+	if s.Early && s.Point != "" && s.Point != "handling" {
+		theGate.mu.Lock()
+		theGate.any, theGate.point, theGate.count = true, s.Point, s.Nth
+		theGate.parked, theGate.release = make(chan struct{}), make(chan struct{})
+		theGate.armed = true
+		release, parked = theGate.release, theGate.parked
+		theGate.mu.Unlock()
+	}
+	var holdRelease chan struct{}
+	if s.Hold > 0 {
+		w.mu.Lock()
+		w.holdID = fmt.Sprintf("m%d", s.Hold)
+		w.holdCh = make(chan struct{})
+		w.heldCh = make(chan struct{})
+		holdRelease = w.holdCh
+		w.mu.Unlock()
+	}
 	if !r.onParent(par, func(p *parent) { alias, serr = p.SpawnMeta(&gmeta{w: w}, gen.MetaOptions{}) }) || serr != nil {
 		return fmt.Errorf("spawn meta: %v", serr)
 	}
@@ -284,9 +306,9 @@ func (r *Runner) Run(s *Scenario) error {
 			quiet()
 		}
 	}
-	var release chan struct{}
-	var parked chan struct{}
-	if s.Point == "handling" {
+	if s.Early {
+		// armed above
+	} else if s.Point == "handling" {
 		w.mu.Lock()
 		w.holdID = fmt.Sprintf("m%d", nmsg+s.Nth)
 		w.holdCh = make(chan struct{})
@@ -295,6 +317,7 @@ func (r *Runner) Run(s *Scenario) error {
 		w.mu.Unlock()
 	} else if s.Point != "" {
 		theGate.mu.Lock()
+		theGate.any = false
 		theGate.subject, theGate.point, theGate.count = alias, s.Point, s.Nth
 		theGate.parked, theGate.release = make(chan struct{}), make(chan struct{})
 		theGate.armed = true
@@ -324,6 +347,7 @@ func (r *Runner) Run(s *Scenario) error {
 		theGate.mu.Lock()
 		theGate.armed = false
 		if s.Point2 != "" {
+			theGate.any = false
 			theGate.subject, theGate.point, theGate.count = alias, s.Point2, 1
 			theGate.parked, theGate.release = make(chan struct{}), make(chan struct{})
 			theGate.armed = true
@@ -349,6 +373,10 @@ func (r *Runner) Run(s *Scenario) error {
 		theGate.armed = false
 		theGate.mu.Unlock()
 		close(release2)
+	}
+	if holdRelease != nil {
+		quiet()
+		close(holdRelease)
 	}
 	wg.Wait()
 	quiet()
